@@ -6,7 +6,9 @@ from c10 import normalise
 
 OPTS = {"unparser": ["ast.unparse", "oneliner"], "expr_wrapper": ["list", "chain_call"], "if_style": ["if_expr", "short_circuit"]}
 BAD_C = ["nope=1", "unparser", "unparser=", "=oneliner", "unparser=oneliner=x", "__doc__=x", "config_names=x", "__class__=y",
-         "if_style=IF_EXPR", "expr_wrapper=chain", "unparser =oneliner", "__init__=z", "__module__=m"]
+         "if_style=IF_EXPR", "expr_wrapper=chain", "unparser =oneliner", "__init__=z", "__module__=m",
+         # a legal value with blanks around it is not that value
+         "unparser=oneliner ", "expr_wrapper= list", "if_style=short_circuit\t", "unparser= ast.unparse", "if_style=if_expr\n"]
 
 
 def gen_invocation(rng, nprogs):
